@@ -594,6 +594,15 @@ fn chunked_update_with_rbits<T>(x: &[T], rbits: &[Block], mut update: impl FnMut
     }
 }
 
+/// Verification hook: the parity of the bits of `x` selected by the coefficient blocks, computed
+/// with the combination helper of the aBit check.
+#[cfg(feature = "__verif")]
+pub(crate) fn verif_abit_combination(x: &[bool], rbits: &[Block]) -> bool {
+    let mut acc = false;
+    chunked_update_with_rbits(x, rbits, |xi, r| acc ^= *xi & (r == 1));
+    acc
+}
+
 /// Protocol PI_aShare that performs F_aShare from the paper
 /// [Global-Scale Secure Multiparty Computation](https://dl.acm.org/doi/pdf/10.1145/3133956.3133979).
 ///
